@@ -58,7 +58,7 @@ var fwdFocus = []string{"dial_addr", "socks5", "bootstrap", "so_mark", "enable_p
 var fwdWritten = []string{"", "udp", "udp", "tcp", "tcp", "tcp+pipeline", "tls", "tls", "tls+pipeline", "https", "https", "h3", "quic"}
 
 var fwdHostClasses = []string{"v4-loopback", "v4-loopback", "v4-loopback", "v4-doc", "b6-loopback", "b6-mapped-loopback", "b6-mid",
-	"hostname", "hostname", "hostname-mixedcase"}
+	"hostname", "hostname", "hostname", "hostname-mixedcase", "hostname-mixedcase"}
 
 func effectiveScheme(written string, pipeline, http3 bool) string {
 	switch {
@@ -151,7 +151,7 @@ func genOptCase(r *rand.Rand, c *Case, focus string, present bool) {
 		}
 	case c.GlobalBoot:
 		c.BootOpt = "global"
-		if r.Intn(100) < 40 {
+		if r.Intn(100) < 30 {
 			c.BootOpt = "own"
 		}
 	default:
@@ -586,7 +586,7 @@ func preJudge(p *parent, tr *traceResult) map[int][]problem {
 // resolveGroupMark: which member a traced destination on a socket carrying the
 // plugin-global so_mark belongs to. Members that inherit the mark are the
 // candidates; among several the one that may legitimately contact the destination.
-func resolveGroupMark(p *parent, gid int, dest netip.AddrPort) (int, bool) {
+func resolveGroupMark(p *parent, gid int, dest netip.AddrPort, sock string) (int, bool) {
 	var cand, all []*caseRes
 	for id := gid; id < gid+4 && id < len(p.cases); id++ {
 		c := p.cases[id]
@@ -619,6 +619,14 @@ func resolveGroupMark(p *parent, gid int, dest netip.AddrPort) (int, bool) {
 			if d == dest {
 				return cr.c.ID, true
 			}
+		}
+	}
+	// nobody's legitimate destination: a member whose scheme opens sockets of that type
+	for _, cr := range cand {
+		s := cr.c.Scheme
+		udpBoth := s == "" || s == "udp"
+		if (sock == "STREAM" && (tcpBased(s) || udpBoth)) || (sock == "DGRAM" && (udpBoth || s == "quic" || s == "h3")) {
+			return cr.c.ID, true
 		}
 	}
 	return cand[0].c.ID, true
@@ -725,6 +733,9 @@ var allCases []*Case
 // optionEvidence counts what the option dimension positively observed (ok: the
 // case was accepted, produced no problem and at least one destination matched).
 func optionEvidence(c *Case, res *Result, cr *caseRes, ok bool) {
+	if c.Socks5Opt != "" && cr.exp.NetIsName {
+		rep.Count(fmt.Sprintf("option_phase_named_destinations_boot=%s_via=%s_observed=%v", c.BootOpt, c.Via, ok), 1)
+	}
 	if c.Socks5Opt == "" || !ok {
 		return
 	}
